@@ -4,6 +4,7 @@
 #[global_allocator]
 static ALLOC: explore::ThreadCache = explore::ThreadCache;
 
+mod features;
 mod c16;
 mod c17;
 mod c18;
@@ -47,6 +48,9 @@ fn main() {
         "C17" => {
             let mut rep = Report::new(&args, "exploration", "E-ENUM: every number spelling up to a length bound + every value up to a node bound (duplicate keys in every pattern)");
             c17::run(&mut rep, args.tier);
+            if std::env::var("VERIF_SECONDARY").is_err() {
+                features::run(&mut rep);
+            }
             rep.rule = "numbers: every JSON number spelling up to the length bound over 0 1 9 - . e E + plus 20 boundary numbers, bare / array item / object member; structure: every value with at most N nodes over leaves {null, 0, 1.5, \"a\"} and keys {a, b, the reserved token}; three oracles: serialize with the crate's serializer (exact, -0 may lose its sign, duplicates collapse to the first position holding the last value), from_value::<Value> and serde_json::from_str::<Value> (same structure, every number the same integer or double; reference double = std's parser resp. serde_json's own); distinct = distinct values".into();
             rep.assumptions.push("the text path is judged against the double serde_json's deserializer itself delivers (DESIGN A.7.9)".into());
             rep.finish()
